@@ -306,6 +306,10 @@ func runWire(dir string, seed uint64, tier string) {
 			if r.chance(12) {
 				return nil
 			}
+			if r.chance(8) {
+				// a type identifier without a voucher: the two are independent wire fields
+				return &datatransfer.TypedVoucher{Type: datatransfer.TypeIdentifier(vtypes[1+r.intn(len(vtypes)-1)]), Voucher: datamodel.Null}
+			}
 			return &datatransfer.TypedVoucher{Type: datatransfer.TypeIdentifier(vtypes[r.intn(len(vtypes))]), Voucher: randTopNode(r)}
 		}
 		var m datatransfer.Message
@@ -386,6 +390,39 @@ func runWire(dir string, seed uint64, tier string) {
 		}
 		if kinds != 1 {
 			fail(id, "not-exactly-one-kind", "a message is not classified as exactly one kind", label, kinds, 1)
+		}
+		// the voucher / voucher result is observable through the accessors exactly when one travelled:
+		// any non-null value comes back equal, null (or absent) means none -- whatever the type identifier says
+		nodeBytes := func(n datamodel.Node) string {
+			var b bytes.Buffer
+			_ = dagcbor.Encode(n, &b)
+			return b.String()
+		}
+		present := func(n datamodel.Node) bool { return n != nil && !n.IsNull() }
+		switch x := m.(type) {
+		case *message1_1.TransferRequest1_1:
+			if dq, ok := dec.(datatransfer.Request); ok {
+				v, verr := dq.Voucher()
+				tv, terr := dq.TypedVoucher()
+				if present(x.VoucherPtr) {
+					if verr != nil || terr != nil || !present(v) || nodeBytes(v) != nodeBytes(x.VoucherPtr) || tv.Type != x.VoucherTypeIdentifier || dq.VoucherType() != x.VoucherTypeIdentifier {
+						fail(id, "voucher-lost-through-accessors", "a request's voucher or type identifier is not readable through the accessors after decoding", label, fmt.Sprint(verr, terr), nil)
+					}
+				} else if verr == nil && !present(v) {
+					fail(id, "absent-voucher-reported-present", "a request that carries no voucher yields a nil / null voucher WITHOUT an error from Voucher()", label, nil, nil)
+				}
+			}
+		case *message1_1.TransferResponse1_1:
+			if ds, ok := dec.(datatransfer.Response); ok {
+				v, verr := ds.VoucherResult()
+				if present(x.VoucherResultPtr) {
+					if verr != nil || !present(v) || nodeBytes(v) != nodeBytes(x.VoucherResultPtr) || ds.VoucherResultType() != x.VoucherTypeIdentifier {
+						fail(id, "voucher-lost-through-accessors", "a response's voucher result or type identifier is not readable through the accessors after decoding", label, fmt.Sprint(verr), nil)
+					}
+				} else if verr == nil && !present(v) {
+					fail(id, "absent-voucher-reported-present", "a response that carries no voucher result yields a nil / null result WITHOUT an error from VoucherResult()", label, nil, nil)
+				}
+			}
 		}
 		if dec.IsRequest() != m.IsRequest() || dec.TransferID() != m.TransferID() {
 			fail(id, "round-trip-changed-message", "FromNet(ToNet(m)) differs from m in request flag or transfer id", label, nil, nil)
